@@ -1,10 +1,16 @@
 #!/bin/sh
 # RUSTC_WRAPPER of the /verif/sim workspace: the copies of the library under test that run
 # under a scheduler get a call to __sanitizer_cov_trace_pc_guard at every basic block
-# (LLVM's SanitizerCoverage pass; stable rustc). Nothing else is instrumented.
+# (LLVM's SanitizerCoverage pass; stable rustc) and a call to __tsan_atomic* in place of every atomic
+# operation (LLVM's ThreadSanitizer pass restricted to atomics; the attribute it looks for is put on
+# by the forceattrs pass). Both families of symbols are defined by sim/bbguard. Nothing else is
+# instrumented.
 rustc="$1"; shift
 case " $* " in
   *" --crate-name mv_sim "*|*" --crate-name mv_real "*|*" --crate-name bbtarget "*)
-    exec "$rustc" "$@" -C passes=sancov-module -C llvm-args=-sanitizer-coverage-level=3 -C llvm-args=-sanitizer-coverage-trace-pc-guard ;;
+    exec "$rustc" "$@" -C "passes=sancov-module forceattrs tsan" \
+      -C llvm-args=-sanitizer-coverage-level=3 -C llvm-args=-sanitizer-coverage-trace-pc-guard \
+      -C llvm-args=-force-attribute=sanitize_thread -C llvm-args=-tsan-instrument-memory-accesses=0 \
+      -C llvm-args=-tsan-instrument-func-entry-exit=0 -C llvm-args=-tsan-instrument-memintrinsics=0 ;;
   *) exec "$rustc" "$@" ;;
 esac
